@@ -62,6 +62,8 @@ def shards(tier, seed):
     for i in range(n):
         out.append({"name": f"sweep{i}", "kind": "sweep", "part": i, "parts": n,
                     "subsets": 10 if tier == "quick" else 400, "routes": 12 if tier == "quick" else 300})
+    for i in range(2 if tier == "quick" else 8):
+        out.append({"name": f"freerun{i}", "kind": "freerun", "n": 12 if tier == "quick" else 80})
     return out
 
 
@@ -352,6 +354,11 @@ class Run:
 
 def run_shard(spec):
     from vf.simnet.harness import Inconclusive
+    if spec.get("kind") == "freerun":
+        # bursts on several connections under real thread scheduling (workload of C07's free-running shard),
+        # judged for delivery: exactly once to the application, or - for requests the node answers itself - never
+        from vf.checks import c07
+        return c07.run_freerun({**spec, "judge": "delivery"})
     run = Run()
     rng = random.Random(h64("C08", spec["seed"], spec["name"]))
     inconclusive = None
@@ -410,6 +417,13 @@ def run_shard(spec):
 
 
 def replay(obj):
+    if obj.get("freerun"):
+        from vf.checks import c07
+        return c07.run_freerun({"name": "replay", "seed": 0, "n": 30, "judge": "delivery"})
+    return _replay(obj)
+
+
+def _replay(obj):
     run = Run()
     sc = Scenario(obj["cfg"], run)
     try:
